@@ -1,6 +1,7 @@
 CONSTANTS
   MaxTasks = 3
   PanicKinds = {"string", "error", "nilmap", "index", "nilptr", "nil", "nilerr", "typednil", "int"}
+  Modes = {"group", "inner", "log"}
 INIT Init
 NEXT Next
 INVARIANTS TypeOK WaitOutcome LogOutcome Progress AllFinish
